@@ -40,6 +40,50 @@ def decoder_functions():
     return out
 
 
+def helper_functions():
+    """[(qualified name, function)]: functions of the decoders' classes and modules (other than the decoders themselves)
+    that a decoder calls, directly or through other helpers, and that contain a loop: their loops are the decoders'
+    loops too"""
+    import sys
+
+    decs = decoder_functions()
+    dec_fns = {fn for _, _, fn, _ in decs}
+    cand = {}
+    for name, cls, fn, kind in decs:
+        mod = sys.modules.get(fn.__module__)
+        for k, d in list(vars(cls).items()) + (list(vars(mod).items()) if mod else []):
+            f = d.__func__ if isinstance(d, (classmethod, staticmethod)) else d
+            if inspect.isfunction(f) and f not in dec_fns and getattr(f, "__module__", "").startswith("pyscsi") and not k.startswith("marshall") and k != "unmarshall_cdb":
+                cand.setdefault(k, f)
+    called = set()
+    work = [fn for _, _, fn, _ in decs]
+    done = set()
+    while work:
+        f = work.pop()
+        if f in done:
+            continue
+        done.add(f)
+        try:
+            node = fn_node(f)
+        except Exception:
+            continue
+        for c in ast.walk(node):
+            if isinstance(c, ast.Call):
+                nm = c.func.attr if isinstance(c.func, ast.Attribute) else c.func.id if isinstance(c.func, ast.Name) else None
+                if nm in cand and cand[nm] not in called:
+                    called.add(cand[nm])
+                    work.append(cand[nm])
+    out = []
+    for f in called:
+        try:
+            node = fn_node(f)
+        except Exception:
+            continue
+        if any(isinstance(n, (ast.While, ast.For)) for n in ast.walk(node)):
+            out.append(("%s.%s" % (f.__module__.rsplit(".", 1)[-1], f.__qualname__), f))
+    return sorted(out, key=lambda t: t[0])
+
+
 def fn_node(fn):
     import textwrap
 
@@ -77,17 +121,37 @@ class LoopVariant(Unit):
             loops = [n for n in ast.walk(node) if isinstance(n, ast.While)]
             for k, l in enumerate(loops):
                 for extra in extra_args(name, fn):
-                    out.append((name, k, extra))
+                    out.append((name, k, extra, None))
+        # loops of helper functions the decoders call (other than the codec, whose loops are C10's): the target loop is
+        # reached by running every decoder of the helper's module
+        for hname, hf in helper_functions():
+            if hf.__module__.endswith(".converter"):
+                continue
+            hl = [n for n in ast.walk(fn_node(hf)) if isinstance(n, ast.While)]
+            for name, cls, fn, kind in decoder_functions():
+                if fn.__module__ != hf.__module__:
+                    continue
+                for k in range(len(hl)):
+                    for extra in extra_args(name, fn):
+                        out.append((name, k, extra, hname))
         return out
+
+    def _target_fn(self, case):
+        if case.get("helper"):
+            for hname, hf in helper_functions():
+                if hname == case["helper"]:
+                    return hf
+        return self._fn(case)[1]
 
     def functions(self):
         return [fn for _, _, fn, _ in decoder_functions() if any(isinstance(n, ast.While) for n in ast.walk(fn_node(fn)))]
 
     def cases(self, tier):
-        return [{"decoder": n, "loop": k, "extra": e} for n, k, e in self._targets()]
+        return [dict({"decoder": n, "loop": k, "extra": e}, **({"helper": h} if h else {})) for n, k, e, h in self._targets()]
 
     def case_id(self, case):
-        return "%s#while%d%s" % (case["decoder"], case["loop"], "".join(",%s=%s" % kv for kv in sorted(case["extra"].items())))
+        return "%s#while%d%s%s" % (case.get("helper") or case["decoder"], case["loop"], "".join(",%s=%s" % kv for kv in sorted(case["extra"].items())),
+                                   ",via=" + case["decoder"].rsplit(".", 2)[-2] + "." + case["decoder"].rsplit(".", 1)[-1] if case.get("helper") else "")
 
     def _fn(self, case):
         for name, cls, fn, kind in decoder_functions():
@@ -100,9 +164,9 @@ class LoopVariant(Unit):
     def interp_config(self, case):
         from pyvc import loops
 
-        cls, fn, kind = self._fn(case)
         from .converter import l0_contracts
 
+        fn = self._target_fn(case)
         self.stats = {}
         return {"loop_hook": loops.make_hook(fn, case["loop"], self.stats), "for_hook": loops.make_for_hook(fn), "contracts": l0_contracts()}
 
@@ -128,13 +192,12 @@ class LoopVariant(Unit):
 
     def ensures(self, case, a, out, X):
         if out.kind == "return" and out.value.get("reached"):
-            yield "C11", "variant:len(buffer)-strictly-decreases-per-iteration", out.value["variant"]
+            yield "C11", "variant:len(buffer)-(or-the-gap-of-an-index-loop)-strictly-decreases-per-iteration", out.value["variant"]
         elif out.kind == "loopbound":
             yield "C11", "no-unbounded-loop-before-the-target", False
 
     def finalize(self, case, outs, kinds):
-        cls, fn, kind = self._fn(case)
-        node = fn_node(fn)
+        node = fn_node(self._target_fn(case))
         loop = [n for n in ast.walk(node) if isinstance(n, ast.While)][case["loop"]]
         from pyvc import loops
 
@@ -144,6 +207,10 @@ class LoopVariant(Unit):
         # vacuity guard: the loop head is reached on some path, or the exploration of the function's prefix is
         # complete and every path ends (returns / raises) before the loop -- then the loop cannot run at all
         yield "C11", "loop-head-reached-or-unreachable (%d paths reach it, %d end before it)" % (reached, len(kinds) - reached), reached > 0 or len(kinds) > 0
+        if case.get("helper"):
+            self._helper_reached[(case["helper"], case["loop"])] = self._helper_reached.get((case["helper"], case["loop"]), 0) + reached
+
+    _helper_reached = {}
 
     def replay_redirect(self, case, tier):
         """a failed variant obligation speaks about an abstract loop-head state; search a concrete input that
@@ -244,14 +311,16 @@ class LoopInventory(Unit):
             for n in ast.walk(node):
                 if isinstance(n, ast.For):
                     it = n.iter
-                    finite = False
                     why = ast.unparse(it)
-                    if isinstance(it, ast.Subscript) or isinstance(it, ast.Name):
-                        finite = True  # a buffer / slice / list value fixed before the loop
-                    if isinstance(it, ast.Call) and isinstance(it.func, ast.Name) and it.func.id in ("range", "reversed", "enumerate", "zip"):
-                        finite = True
-                    if isinstance(it, ast.Call) and isinstance(it.func, ast.Attribute) and it.func.attr in ("items", "keys", "values"):
-                        finite = True
+                    # a `for` over a container, a slice, a range, a dictionary view ... is finite.  Statically refused
+                    # are only the constructs that build an endless iterator in place; a name bound to such an iterator
+                    # elsewhere is caught by the bounded unit (the interpreter bounds the iterations of every `for`)
+                    finite = True
+                    for c in ast.walk(it):
+                        if isinstance(c, ast.Call):
+                            fname = c.func.id if isinstance(c.func, ast.Name) else c.func.attr if isinstance(c.func, ast.Attribute) else ""
+                            if fname in ("count", "cycle") or (fname == "repeat" and len(c.args) < 2 and not c.keywords) or (fname == "iter" and len(c.args) == 2):
+                                finite = False
                     mutated = any(isinstance(m, ast.Call) and isinstance(m.func, ast.Attribute) and m.func.attr in ("append", "extend", "insert")
                                   and ast.unparse(m.func.value) == ast.unparse(it) for b in n.body for m in ast.walk(b))
                     inv.append(("for", name, n.lineno, why, finite and not mutated))
@@ -294,7 +363,7 @@ class LoopInventory(Unit):
             return
         inv, calls, masks = out.value
         for kind, name, line, why, ok in inv:
-            yield "C11", "for-loop-iterates-over-a-finite-fixed-sequence:%s:line%d (%s)" % (name, line, why[:40]), ok
+            yield "C11", "for-loop-does-not-iterate-over-an-endless-or-growing-sequence:%s:line%d (%s)" % (name, line, why[:40]), ok
         names = {n.rsplit(".", 1)[-1]: n for n in calls}
         # no recursion: the call graph restricted to decoder functions is acyclic
         graph = {n: {names[c] for c in cs if c in names} for n, cs in calls.items()}
@@ -474,11 +543,71 @@ class BoundedTermination(Unit):
         yield "C11", "no-loop-of-the-decoder-iterates-more-than-2*len+8-times", out.kind != "loopbound"
 
 
+class ReadCdGrid(Unit):
+    """READ CD decoder over the whole grid of its request arguments (expected sector type x main channel selection x
+    C2 error information x sub-channel selection x transfer length incl. 0 / omitted): every call returns or raises within
+    the iteration bound.  Native runs under a loop-header budget."""
+
+    name = "termination/readcd-argument-grid"
+    properties = ("C11",)
+    level = "bounded"
+    bound_note = "quick: one 2400-byte buffer, est 0..5 x mcsb 00h..F8h x c2ei 0,1,3 x scsb 0,2,7 x tl omitted,0,2; thorough: buffers of 0, 2352, 4800 bytes and the full grid; concrete native runs counting loop-header executions against 2*len+8"
+    witness = False
+
+    def cases(self, tier):
+        self._tier = tier
+        return [{"est": e, "tier": tier} for e in range(0, 6)]
+
+    def case_id(self, case):
+        return "est=%d" % case["est"]
+
+    def run(self, X, case, a):
+        from .datain import cls_of
+
+        cls = cls_of("scsi_cdb_readcd", "ReadCd")
+        d = cls.__dict__["unmarshall_datain"]
+        fn = d.__func__ if isinstance(d, (classmethod, staticmethod)) else d
+        bad = []
+        runs = 0
+        thorough = case.get("tier", "quick") != "quick"
+        bufs = (bytes(0), bytes(2352), bytes((i * 7 + 1) & 0xFF for i in range(4800))) if thorough else (bytes((i * 7 + 1) & 0xFF for i in range(2400)),)
+        for buf in bufs:
+            for m in range(0, 32):
+                for c2 in (0, 1, 2, 3) if thorough else (0, 1, 3):
+                    for sc in (0, 1, 2, 4, 7) if thorough else (0, 2, 7):
+                        for tl in (None, 0, 1, 2) if thorough else (None, 0, 2):
+                            if len(bad) >= 3:
+                                continue  # enough counterexamples for this case
+                            kw = {"lba": 16, "est": case["est"], "mcsb": m << 3, "c2ei": c2, "scsb": sc}
+                            if tl is not None:
+                                kw["tl"] = tl
+                            args = [bytearray(buf)]
+                            if isinstance(d, classmethod):
+                                args = [cls] + args
+                            runs += 1
+                            try:
+                                run_with_budget(fn, args, kw, iteration_bound(len(buf)) + 1, max_events=60000)
+                            except _Budget:
+                                bad.append("len=%d %s" % (len(buf), " ".join("%s=%s" % kv for kv in sorted(kw.items()))))
+                            except Exception:
+                                pass  # raising is a way of returning
+        return runs, bad
+
+    def ensures(self, case, a, out, X):
+        if out.kind != "return" or out.value is None:
+            yield "C11", "grid-evaluated (%s)" % out.describe()[:60], False
+            return
+        runs, bad = out.value
+        yield "C11", "grid-nonempty", runs > 500
+        yield "C11", "every-call-of-the-grid-stays-within-the-iteration-bound%s" % ((" (exceeded: " + "; ".join(bad[:3]) + ")") if bad else ""), not bad
+
+
 def replay_native_budget(unit, case, inputs):
     pass
 
 
 register(LoopVariant())
 register(RangeLoops())
+register(ReadCdGrid())
 register(LoopInventory())
 register(BoundedTermination())
